@@ -5,9 +5,22 @@
 
 package ige
 
+import "math/big"
+
 // побайтовый xor
 func xor(dst, src []byte) {
 	for i := range dst {
 		dst[i] ^= src[i]
 	}
+}
+
+// fixedSizeBytes returns big endian bytes of n, left padded by zeros up to size
+func fixedSizeBytes(n *big.Int, size int) []byte {
+	b := n.Bytes()
+	if len(b) >= size {
+		return b
+	}
+	res := make([]byte, size)
+	copy(res[size-len(b):], b)
+	return res
 }
